@@ -51,6 +51,41 @@ C20TopFails(c) ==
         (IF c.inv THEN OperandsFirst(c.c, c.order) ELSE UsersFirst(c.c, c.order))>>
   >>)
 
+(* kind "travdeep": a circuit with one path of more than a thousand gates in which every gate is reachable from the outputs
+   and from the inputs (so every default-start traversal reaches everything).  c.orders: the two top_sort results
+   [inv, order, exc]; c.travs: [mode, inverse, ev, exc] with all hooks installed.  Linear clauses only. *)
+AfterAllOf(G, seq, succ(_)) ==       \* every element of seq comes after all of its succ elements
+  FoldLeft(LAMBDA acc, l : [ok |-> acc.ok /\ succ(l) \subseteq acc.seen, seen |-> acc.seen \cup {l}], [ok |-> TRUE, seen |-> {}], seq).ok
+C20DeepFails(c) ==
+  LET G == AsFcn(c.c.g)
+      L == DOMAIN G
+      opsOf(l) == SeqSet(G[l].o)
+      perm(seq) == Len(seq) = Cardinality(L) /\ SeqSet(seq) = L
+      top == UNION {
+        IF c.orders[j].exc # "" THEN {"top_sort-raised:" \o c.orders[j].exc}
+        ELSE IF perm(c.orders[j].order) /\
+                AfterAllOf(G, IF c.orders[j].inv THEN c.orders[j].order ELSE Reverse(c.orders[j].order), opsOf)
+             THEN {} ELSE {"top_sort-order"} : j \in DOMAIN c.orders}
+      trav == UNION {
+        LET t == c.travs[j]
+            ys == EvLabels(t.ev, "yield")
+            ens == EvLabels(t.ev, "enter")
+            exs == EvLabels(t.ev, "exit")
+            uns == EvLabels(t.ev, "unvisited")
+        IN IF t.exc # "" THEN {"traversal-raised:" \o t.exc}
+           ELSE FailSet(<<
+             <<"yields-exactly-the-reachable-gates-once", perm(ys)>>,
+             <<"enter-hook-once-per-reached-gate", perm(ens)>>,
+             <<"exit-hooks-exactly-the-reached-gates", t.mode # "DFS" \/ perm(exs)>>,
+             <<"no-exit-hook-in-bfs", t.mode # "BFS" \/ exs = <<>>>>,
+             \* forward traversals walk towards the operands: a gate exits after its operands; inverse ones after its users,
+             \* i.e. read backwards the exits are operands-first
+             <<"exit-in-post-order", t.mode # "DFS" \/ ~perm(exs) \/
+                 AfterAllOf(G, IF t.inverse THEN Reverse(exs) ELSE exs, opsOf)>>,
+             <<"unvisited-hook-exactly-the-unreached-gates", uns = <<>>>>
+           >>) : j \in DOMAIN c.travs}
+  IN top \cup trav
+
 (* a cycle is reachable from the outputs iff the sub-netlist induced by Reach(outs)
    cannot be layered completely *)
 HasReachableCycle(c) ==
